@@ -13,12 +13,15 @@
 //!   c15.hw            the hand-written pairs with a Lean model of their own (Model/Handwritten2.lean): MaybeNamedDest,
 //!                       NumberTree, NameTree (read side), CidToGidMap, AppearanceStreamEntry, Pattern, XObject
 //!                       dispatch, Encoding — see c15_hw.rs
+//!   c15.vw            the value side: the catch-all emptied / stripped of the tags before writing — see c15_value.rs
 //!   c15.rt.illtyped     the same dictionaries with one entry spoiled (drift only: outside the property's domain)
 //! Oracles (the REAL types against the two laws themselves):
 //!   c15.law1            write(read(write x)) == write x and the read succeeds, for every typed model incl. the
 //!                       leaf types the Lean model does not implement, and for the hand-written pairs
 //!                       (Date, Rectangle, Matrix, Dest, Action, Encoding, NumberTree, ColorSpace) from values
 //!                       constructed directly in Rust
+//!   c15.value-side    read(write x) = x for values built with an empty catch-all; c15.stream-values: typed streams built
+//!                       in memory with filter chains (filters, parameters, decoded data) — see c15_value.rs
 //!   c15.law2            models with a catch-all: every non-null entry of an accepted dictionary is present
 //!                       after read + write (unknown keys verbatim; recognised keys up to int/real, one-or-many
 //!                       and dereferencing)
@@ -27,6 +30,8 @@
 pub mod support;
 #[path = "c15_hw.rs"]
 mod hw;
+#[path = "c15_value.rs"]
+mod value;
 
 use crate::driver::Driver;
 use crate::report::{trunc, Oracle, Report, Stream};
@@ -1252,6 +1257,8 @@ pub fn run(driver: &Driver, seed: u64, thorough: bool, replay: Option<&serde_jso
         match r["oracle"].as_str().or(r["stream"].as_str()).unwrap_or("") {
             "c15.law1.handwritten" => rep.oracles.push(oracle_handwritten(seed, case + 1, Some(case))),
             "c15.variant-sweep" => rep.oracles.push(oracle_variant_sweep(seed, r["round"].as_u64().unwrap_or(0) + 1)),
+            "c15.value-side" => rep.oracles.push(value::oracle_value_side(&schemas, seed, 24, None)),
+            "c15.stream-values" => rep.oracles.push(value::oracle_stream_values(&schemas, seed, false)),
             "c15.law" => {
                 let m = r["model"].as_str().unwrap_or("").to_string();
                 let (a, b) = oracle_laws(&schemas, seed, case + 1, Some((case, &m)));
@@ -1270,10 +1277,13 @@ pub fn run(driver: &Driver, seed: u64, thorough: bool, replay: Option<&serde_jso
     rep.streams.push(f32_stream(driver, seed, 700 * k));
     rep.streams.push(rt_illtyped(driver, &schemas, seed, 12 * k));
     rep.streams.push(hw::hw_stream(driver, &schemas, seed, 120 * k));
+    rep.streams.push(value::vw_stream(driver, &schemas, seed, 24 * k));
     let (l1, l2) = oracle_laws(&schemas, seed, 60 * k, None);
     rep.oracles.push(l1);
     rep.oracles.push(l2);
     rep.oracles.push(oracle_handwritten(seed, 400 * k, None));
     rep.oracles.push(oracle_variant_sweep(seed, if thorough { 40 } else { 2 }));
+    rep.oracles.push(value::oracle_value_side(&schemas, seed, 24 * k, None));
+    rep.oracles.push(value::oracle_stream_values(&schemas, seed, thorough));
     rep
 }
